@@ -83,6 +83,31 @@ def run_crc_family(fam, st):
                 base[pos] = v
                 one(bytes(base), f"len {ln} bg {bg:#x} pos {pos}")
             base[pos] = old
+    elif kind == "step":
+        # the byte-step transition function on EVERY 24-bit register state: the CRC of a 3-byte
+        # message ranges over all 2^24 states (the map is a bijection), so all 4-byte messages
+        # with a given last byte exercise state x input exhaustively for that input
+        tbl = pinned._TBL  # pylint: disable=protected-access
+        b0 = fam["b0"]
+        r0 = tbl[b0]
+        for b1 in range(256):
+            r1 = ((r0 << 8) & 0xFFFFFF) ^ tbl[(r0 >> 16) ^ b1]
+            for b2 in range(256):
+                r2 = ((r1 << 8) & 0xFFFFFF) ^ tbl[(r1 >> 16) ^ b2]
+                for last in fam["last"]:
+                    n += 1
+                    want = ((r2 << 8) & 0xFFFFFF) ^ tbl[(r2 >> 16) ^ last]
+                    data = bytes((b0, b1, b2, last))
+                    got = calc_crc24q(data)
+                    if got != want:
+                        out = core.Outcome()
+                        out.bad("crc-value-wrong:register-state",
+                                f"calc_crc24q({data.hex()}) = {got:#08x}, reference {want:#08x} "
+                                f"(register {r2:#08x} before the last byte)")
+                        st.add({"kind": "crc", "data": data}, out)
+                        st.evaluations -= 1
+                        st.nontrivial -= 1
+        st.extra["register_states_x_inputs"] = st.extra.get("register_states_x_inputs", 0) + 65536 * len(fam["last"])
     elif kind == "perlen":
         for ln in range(fam["lo"], fam["hi"]):
             one(b"\xff" * ln, f"ones {ln}")
@@ -123,7 +148,7 @@ def run_err_family(fam, st):
         n += 1
         dmg = (fi ^ e).to_bytes(len(frame), "big")
         try:
-            RTCMReader.parse(dmg, validate=1)
+            RTCMReader.parse(dmg, validate=fam.get("validate", 1))
             res = "accepted"
         except RTCMParseError:
             return
@@ -132,8 +157,8 @@ def run_err_family(fam, st):
         if pinned.crc24q_table(dmg) == 0:
             raise core.Broken(f"family {fam} produced a pattern the reference CRC does not detect")
         out = core.Outcome()
-        out.bad("damage-not-rejected:" + fam["kind"],
-                f"frame of {len(frame)} B with error pattern {e:#x} ({bin(e).count('1')} bits, span "
+        out.bad("damage-not-rejected:" + fam["kind"] + (":validate-flag" if "validate" in fam else ""),
+                f"validate={fam.get('validate', 1)!r}: frame of {len(frame)} B with error pattern {e:#x} ({bin(e).count('1')} bits, span "
                 f"{e.bit_length() - (e & -e).bit_length() + 1}) -> {res}")
         st.add({"kind": "err", "len": fam["len"], "e": hex(e),
                 "nested": [fam["inner"], fam["bit"]] if fam["kind"] == "nested" else None}, out)
@@ -255,7 +280,7 @@ def judge(case):
 
 def _work(fam):
     st = core.Stats()
-    if fam["kind"] in ("short", "posbyte", "singlebit", "perlen"):
+    if fam["kind"] in ("short", "posbyte", "singlebit", "perlen", "step"):
         run_crc_family(fam, st)
     elif fam["kind"] == "v0":
         run_v0(st, fam["tier"])
@@ -270,6 +295,9 @@ def plan(tier):
         fams.append({"kind": "short", "lo": lo, "hi": lo + 16})
     for lo in range(0, 1030, 65):
         fams.append({"kind": "perlen", "lo": lo, "hi": min(lo + 65, 1031)})
+    last = [0x00] if tier == "quick" else [0x00, 0xFF, 0x01, 0x80, 0x55, 0xAA, 0xD3, 0x7F]
+    for b0 in range(256):
+        fams.append({"kind": "step", "b0": b0, "last": last, "len": 40})
     big = [255, 256, 257, 511, 512, 513, 1023, 1024, 1025, 1026, 1027, 1028, 1029]
     lens = list(range(1, 41)) + big if tier == "quick" else list(range(1, 1030))
     for ln in lens:
@@ -290,6 +318,10 @@ def plan(tier):
         fams.append({"kind": "1bit", "len": ln})
     for ln in ([6, 8, 16, 24, 64] if tier == "quick" else list(range(6, 65)) + [256]):
         fams.append({"kind": "2bit", "len": ln})
+    # every value of the validate flag that has the checksum bit set
+    for v in (True, 3, 5, 0x81, 0xFF, 257, 0xFFFF):
+        for ln in (6, 25, 64):
+            fams.append({"kind": "1bit", "len": ln, "validate": v})
     for inner in ((2, 4, 19) if tier == "quick" else (2, 3, 4, 5, 8, 19, 33, 100, 255)):
         for bit in range(10):
             outer = inner | (1 << bit)
